@@ -113,6 +113,11 @@ func DecodeConfig(r io.Reader) (image.Config, error) {
 	}
 
 	feat := p.Features()
+	if len(p.Frames()) == 0 && !feat.HasAnim {
+		// A still image whose image chunk is missing (e.g. a file cut right
+		// after the VP8X header) cannot be decoded; do not describe it.
+		return image.Config{}, ErrNoFrames
+	}
 
 	// Determine color model to match what Decode() actually returns:
 	//   - VP8L (lossless) always decodes to *image.NRGBA
@@ -152,6 +157,9 @@ func GetFeatures(r io.Reader) (*Features, error) {
 	}
 
 	feat := p.Features()
+	if len(p.Frames()) == 0 && !feat.HasAnim {
+		return nil, ErrNoFrames
+	}
 	f := &Features{
 		Width:      feat.Width,
 		Height:     feat.Height,
